@@ -49,3 +49,82 @@ Theorem C06_combined_reward_rewriting_sound :
 Proof. exact combined_tbl_locus. Qed.
 Print Assumptions C06_combined_reward_rewriting_sound.
 
+
+(* ------------------------------------------------------------------------------------------------
+   proofs/SpaceFactsAllRates.v: (2) and (3) above strengthened, over the REAL numbers.
+
+   EVERY REAL VALUATION OF THE RATES (bounded in sample size / number of demes only).  The model of the
+   state-space construction is run once with the population time scales, the migration rates and the
+   recombination rate as SYMBOLS (model/LinForm.v); the criteria are decided on the symbolic rates
+   (model/SpaceChecksSym.v) and transported by parametricity to every real valuation [rho : rval] of
+   the symbols; [realP rho nd Kingman true] is the real parameter record with nd demes (Kingman
+   coalescent, lineage counting - the two-locus state space of the code) whose rates are read off rho,
+   and [with_rec r rho] is rho with the recombination rate replaced by r.
+
+   C06_two_locus_marginal_is_single_locus_all_rates   (n, demes) in [marginal_groups]; both loci l.
+       [marginal_spec_R P nd n l st2 st1]: the breadth-first construction yields the two-locus states
+       st2 and the one-locus states st1; projecting a two-locus state (or any target of a transition
+       out of it) on locus l gives a one-locus state; and for every two-locus state s and every
+       one-locus state c other than the image of s, the total two-locus rate from s into the states
+       that project on c IS the one-locus rate from the image of s to c.  Second conjunct: that total
+       rate is the same whatever the recombination rate r.  So each locus is marginally the
+       single-locus chain, for all population sizes, migration matrices and recombination rates.
+   C06_r0_linked_closed_all_rates   (n, demes) in [r0_groups]; every valuation with recombination rate
+       0.  [r0_spec_R P nd n st]: for every sample configuration the start state with all samples
+       linked is among the states built, and every state reachable from it through transitions of
+       non-zero rate is a listed state that is fully linked (no unlinked lineage, both loci carry the
+       same lineages): the two trees coincide.
+
+   NO BOUND AT ALL (structural proofs over [transit], the transitions out of one state): every
+   parameter record with recombination rate 0 (any coalescent model with real parameters, time scales,
+   migration matrix, either state space), every number of loci other than one, every number of demes
+   and samples.  [lnk s = lin s] says that all lineages of s are linked (the linked-lineage array is
+   the whole lineage array), [unl t l d b] is the number of unlinked lineages of locus l in deme d and
+   block b.
+   C06_r0_no_unlinking_unbounded    out of a state with all lineages linked, every transition into a
+                                    state that has an unlinked lineage has rate 0.
+   C06_r0_linked_closed_unbounded   every state reachable from such a state through transitions of
+                                    non-zero rate ([nz_reachR]) again has all lineages linked, the
+                                    same number of loci and no unlinked lineage anywhere. *)
+From PG Require Import model.LinForm model.SpaceChecksSym proofs.SpaceFactsAllRates.
+Module C06_all_rates.
+Local Close Scope Q_scope.
+Local Close Scope R_scope.
+
+Theorem C06_two_locus_marginal_is_single_locus_all_rates :
+  forall (n nd : nat), In (n, nd) marginal_groups ->
+  exists st2 st1 : list state, forall (rho : rval) (l : nat), In l [0; 1]%nat ->
+    marginal_spec_R (realP rho nd Kingman true) nd n l st2 st1 /\
+    (forall (r : R) (s c : state), In s st2 -> In c st1 -> c <> proj_locus nd l s ->
+       rate_into_g OpsR (proj_locus nd l) (transit OpsR (realP (with_rec r rho) nd Kingman true) s) c
+       = rate_into_g OpsR (proj_locus nd l) (transit OpsR (realP rho nd Kingman true) s) c).
+Proof. exact two_locus_marginal_is_single_locus_all_rates. Qed.
+Print Assumptions C06_two_locus_marginal_is_single_locus_all_rates.
+
+Theorem C06_r0_linked_closed_all_rates :
+  forall (n nd : nat), In (n, nd) r0_groups ->
+  exists st : list state, forall rho : rval, r_rec rho = 0%R -> r0_spec_R (realP rho nd Kingman true) nd n st.
+Proof. exact r0_linked_closed_all_rates. Qed.
+Print Assumptions C06_r0_linked_closed_all_rates.
+
+Example C06_all_rates_groups :
+  marginal_groups = [(2,1); (3,1); (4,1); (5,1); (6,1); (7,1); (8,1); (2,2); (3,2); (4,2); (5,2); (2,3); (3,3)]%nat /\
+  r0_groups = [(2,1); (3,1); (4,1); (5,1); (6,1); (7,1); (8,1); (2,2); (3,2); (4,2); (5,2); (2,3); (3,3)]%nat.
+Proof. split; reflexivity. Qed.
+Print Assumptions C06_all_rates_groups.
+
+Theorem C06_r0_linked_closed_unbounded :
+  forall (P : params (T:=R)) (s t : state),
+    p_rec P = 0%R -> n_loci s <> 1%nat -> lnk s = lin s -> nz_reachR P s t ->
+    lnk t = lin t /\ n_loci t = n_loci s /\ forall l d b : nat, unl t l d b = 0%nat.
+Proof. exact r0_linked_closed_unbounded. Qed.
+Print Assumptions C06_r0_linked_closed_unbounded.
+
+Theorem C06_r0_no_unlinking_unbounded :
+  forall (P : params (T:=R)) (s t : state) (r : R),
+    p_rec P = 0%R -> n_loci s <> 1%nat -> lnk s = lin s ->
+    In (t, r) (transit OpsR P s) ->
+    (exists l d b : nat, unl t l d b <> 0%nat) -> r = 0%R.
+Proof. exact r0_no_unlinking_unbounded. Qed.
+Print Assumptions C06_r0_no_unlinking_unbounded.
+End C06_all_rates.
